@@ -19,7 +19,7 @@ def run(ctx):
         ctx.obligations += 1
         if "r" not in replay:
             try:
-                replay["r"] = ctx.monitor("m_docopts", "search", 80, ctx.seed)
+                replay["r"] = ctx.monitor("m_docopts", "search", 100, ctx.seed)
             except Exception as e:
                 replay["r"] = {"violation": None, "inputs": None, "error": str(e)}
         r = replay["r"]
@@ -34,7 +34,7 @@ def run(ctx):
     ctx.not_covered += ["library-level literalinclude / literalinclude2 (excluded by the property)",
                         "token-level identity of the compiled view: bounded monitor m_docopts only"]
     if ctx.tier != "thorough":
-        r = ctx.monitor("m_docopts", "search", 80, ctx.seed)
+        r = ctx.monitor("m_docopts", "search", 100, ctx.seed)
         ctx.bounded.append({"monitor": "m_docopts", "inputs_tried": r["tried"], "violation": r["violation"],
                             "kind": "two-run relation: each option on vs off (globally, on single declarations of overload sets with "
                                     "cpp_if / default arguments / fortran_generic / a long callback, and on libraries without "
